@@ -95,6 +95,18 @@ def run_shards(modname, prop_id, cases, jobs, case_timeout, shard_timeout):
     return results, dead, covs
 
 
+def _brief(obj, limit=1500):
+    """evidence samples stay readable: long lists inside a case (bundles of sub-cases, histories) are cut to their head"""
+    if isinstance(obj, dict):
+        return {k: _brief(v, limit) for k, v in obj.items()}
+    if isinstance(obj, list):
+        if len(json.dumps(obj)) > limit:
+            head = [_brief(v, limit) for v in obj[:3]]
+            return head + ["... (%d items in total)" % len(obj)]
+        return [_brief(v, limit) for v in obj]
+    return obj
+
+
 def run_check(prop_id, tier, seed, jobs=None, replay=None):
     env.ensure_deps()
     modname = prop_id.lower()
@@ -127,7 +139,7 @@ def run_check(prop_id, tier, seed, jobs=None, replay=None):
         for k, v in r["counts"].items():
             counts[k] = counts.get(k, 0) + v
         if r["samples"] and len(samples) < 6:
-            samples.append({"case": r["case"], "observed": r["samples"][0]})
+            samples.append({"case": _brief(r["case"]), "observed": _brief(r["samples"][0])})
         for why in r["inconclusive"]:
             inconclusive.append({"case": r["case"], "why": why})
         for v in r["violations"]:
